@@ -50,5 +50,21 @@ func TestSweep(t *testing.T) {
 			}
 		}
 	}
+	// wide degenerate buffers: hundreds and tens of thousands of channels, no capacity or no length
+	for i, C := range WideChannels {
+		for _, sh := range [][2]int{{0, 0}, {0, 1}, {1, 0}} { // {L, K}
+			tn, un := names[i%len(names)], names[(i*3+sh[0]+sh[1])%len(names)]
+			for _, entry := range []string{"sizes", "slice00", "channel0", "pool", "poolAfterGrowth", "appendSample", "appendEmpty"} {
+				Oracle.One(t, env, rec, "sweep", &Case{Entry: entry, T: tn, C: C, L: sh[0], K: sh[1], N: 1 + i%2, K2: i % 2})
+			}
+			for _, entry := range []string{"write", "read", "writeStriped", "readStriped"} {
+				Oracle.One(t, env, rec, "sweep", &Case{Entry: entry, T: tn, U: un, C: C, L: sh[0], K: sh[1], N: 2})
+			}
+			e := convtab.Entries[(i*37+sh[0]*5+sh[1]*11)%len(convtab.Entries)]
+			for _, role := range []string{"src", "dst", "both"} {
+				Oracle.One(t, env, rec, "sweep", &Case{Entry: "conv", T: e.S.Name, U: e.D.Name, C: C, L: sh[0], K: sh[1], N: 1, Role: role, K2: 1})
+			}
+		}
+	}
 	rec.Exhaustive("every exported entry point x every degenerate allocator (zero value; 0 channels with L<=K<=2(3); C<=3(4) with zero capacity; zero length with K<=2(3)) x 13 types (169 pairs for Read/Write/striped, 169 conversions x 3 roles) x slice/partner lengths {0,1,3}", true)
 }
